@@ -11,6 +11,7 @@ from .rules import structs as R_st
 from .rules import formats as R_fm
 from .rules import c20 as R_c20
 from .rules import c18c19 as R_cc
+from .rules import own as R_own
 
 Q = ("quick", "thorough")
 T = ("thorough",)
@@ -43,7 +44,7 @@ PROPS = {
             "read but never stored, (4) spec/setup-function keyword mismatches (TypeError on every matching word). "
             "Does NOT decide totality over all byte strings (type errors, KeyError on computed keys, arithmetic on wrong kinds)."
         ),
-        rules=[(R_c17.r_import_c17, Q), (R_c17.r_name_c17, Q), (R_c17.r_modattr_c17, Q), (R_c17.r_priv_c17, Q), (R_c17.r_arity_c17, Q), (R_c17.r_dupkey_c17, Q), (R_c17.r_unbound_c17, T), (R_spec.r_sig, Q), (R_spec.r_dupfmt, Q)],
+        rules=[(R_c17.r_import_c17, Q), (R_c17.r_name_c17, Q), (R_c17.r_modattr_c17, Q), (R_c17.r_priv_c17, Q), (R_c17.r_arity_c17, Q), (R_c17.r_dupkey_c17, Q), (R_c17.r_unbound_c17, T), (R_spec.r_sig, Q), (R_spec.r_dupfmt, Q), (R_c06.r_sizetab, Q)],
         level_text="partial: static scope/signature analysis over every function reachable from decode, format and execute entry points of all ISAs (~3000+ functions); each report is a definite NameError/AttributeError/TypeError for every input that reaches the line; the tests decode ~150 words and execute a handful of semantics",
         level_note="Trusted: CPython ast; by-name callee resolution (no type inference), so attribute typos on non-module objects and implicit exceptions (IndexError/KeyError/TypeError on values) are out of reach. Unresolvable namespaces and deliberate bare-name crash markers are listed as undecided, not alarmed.",
         technique="static scope resolution + call-graph reachability + spec/signature cross-check over the AST",
@@ -127,9 +128,12 @@ PROPS = {
             "Decides: (R-WIDTH) rewrites never return an operand or fixed-width literal in place of a node of different width "
             "(width classes read from op.__init__/_operator.__init__); (R-SIZEIMM) `.size` of an expression is assigned only in "
             "constructors/__setstate__ within cas/expressions.py, cas/mapper.py, system/memory.py, system/core.py, and every exp "
-            "subclass constructor assigns size and sf on every normal path. Does NOT decide comp tiling, slice arithmetic, widths through eval."
+            "subclass constructor assigns size and sf on every normal path; (R-REBUILD) a mem rebuilt from another one passes its size and endianness; "
+            "(R-SPAN) in class comp a part stored under key (lo, hi) as top(n)/cst(x, n)/slice is hi-lo bits wide by integer-linear "
+            "comparison under the tested equalities, and smask updates cover the same bits. Does NOT decide widths of parts stored from "
+            "arbitrary values, slice arithmetic outside comp, widths through eval."
         ),
-        rules=[(R_cas.r_width, Q), (R_cas.r_width_fields, Q), (R_cas.r_rebuild, Q), (R_cas.r_sizeimm, Q)],
+        rules=[(R_cas.r_width, Q), (R_cas.r_width_fields, Q), (R_cas.r_rebuild, Q), (R_cas.r_sizeimm, Q), (R_cas.r_span, Q)],
         level_text="partial: guarded-return x width-class table check over the rewrite helpers, who-may-write scan of `.size`, definite-assignment on the CFG of the 16 exp constructors",
         level_note="Trusted: provenance classification of receivers (parameter / read-out-of-parameter / fresh constructor result / unknown); unknown receivers are undecided. Stores of `.size` in amoco/arch are handled under C10 (R-SHMUT).",
         technique="guarded-return x table check, who-may-write effect scan, definite assignment on CFG",
@@ -143,10 +147,11 @@ PROPS = {
             "functions in the OP_* tables and _operator.__call__ never store to an attribute of a parameter (including self) or of "
             "an object read out of a parameter, outside the declared mutators; in-place simplification never writes a field of a "
             "child node; (R-SIZEIMM) widths are never re-assigned; (R-SLOTSTATE) __setstate__ restores every slot of the MRO, "
-            "__getstate__/__setstate__ keys agree, dict-bearing subclasses of slot-only __setstate__ lose nothing. Does NOT decide "
+            "__getstate__/__setstate__ keys agree, dict-bearing subclasses of slot-only __setstate__ lose nothing; (R-OWNMERGE) merge() "
+            "simplifies (with caller-chosen, possibly widening options) only expressions of maps it created itself. Does NOT decide "
             "equivalence of in-place simplification nor printing/equality after unpickling."
         ),
-        rules=[(R_cas.r_oppure, Q), (R_cas.r_aliasret, Q), (R_cas.r_own_mapper, Q), (R_cas.r_sizeimm, Q), (R_cas.r_slotstate, Q)],
+        rules=[(R_cas.r_oppure, Q), (R_cas.r_aliasret, Q), (R_cas.r_own_mapper, Q), (R_cas.r_sizeimm, Q), (R_cas.r_slotstate, Q), (R_own.r_ownmerge, Q)],
         level_text="partial: effect analysis over the 203 non-mutator methods/functions of the expression algebra and slot/state table comparison for the 9 classes with custom pickling",
         level_note="Trusted: receiver provenance classifier; stores on results of eval/slicing/operators (possibly shared, e.g. slc.eval/mem.eval res.sf) are listed as undecided, not alarmed; the save/restore idiom of cst.signextend is accepted.",
         technique="effect (attribute-store) analysis with receiver provenance + table<->table comparison of pickling state",
@@ -163,9 +168,9 @@ PROPS = {
             "through a helper summarised as mutating its parameter (cas.utils.AddWithCarry/SubWithBorrow); (R-GLOBALW) nothing "
             "reachable from i_XXX stores to module-level state; (R-REGTYPE) regtype.cur / reg._subrefs writers; plus the "
             "algebra-side aliasing rules R-ALIASRET (comp never hands out itself) and R-OWN (register entries of a mapper are "
-            "mapper-owned) and R-OPPURE. Does NOT decide leakage through eval paths whose aliasing depends on which rewrite fires."
+            "mapper-owned), R-OWNMERGE (merge never simplifies its callers' maps in place). Does NOT decide leakage through eval paths whose aliasing depends on which rewrite fires."
         ),
-        rules=[(R_c10.r_shmut, Q), (R_c10.r_globalw_sem, Q), (R_c10.r_regtype, Q), (R_cas.r_aliasret, Q), (R_cas.r_own_mapper, Q)],
+        rules=[(R_c10.r_shmut, Q), (R_c10.r_globalw_sem, Q), (R_c10.r_regtype, Q), (R_cas.r_aliasret, Q), (R_cas.r_own_mapper, Q), (R_own.r_ownmerge, Q)],
         level_text="partial (the core clause): alias/provenance analysis of every mutation site in the architecture layer (364 sites) with one-level helper summaries, and a who-may-write scan over the 1596 functions reachable from semantics; tests never evaluate a stored map after unrelated work",
         level_note="Trusted: receiver provenance is classified by syntactic origin (operands element, env-module binding, fmap of those, constructor result); operator results and helper results are 'unknown' and listed as undecided (134 sites), never alarmed. 190 definite sites on the unchanged tree are genuine (118 confirmed by observing the mutation at run time during triage) and are listed as known findings: the sign flag is stored on shared objects by design in this code base.",
         technique="alias/provenance (taint) analysis of attribute stores with one-level interprocedural summaries + who-may-write effect scan",
@@ -180,10 +185,12 @@ PROPS = {
             "immediate bit coverage, concatenation order, scaling and sign; (R-PC) every semantics function advances pc exactly "
             "once on every path and pc-relative semantics read the instruction's own pc; (R-SIGNED) signed/unsigned ordered "
             "comparisons are marked as the manual requires; (R-RAW) sources are read before rd is written. For x86/x64: (R-CCTAB) "
-            "the condition-code table used by Jcc/SETcc/CMOVcc has the SDM truth tables (all 32 flag valuations). Does NOT decide "
+            "the condition-code table used by Jcc/SETcc/CMOVcc has the SDM truth tables (all 32 flag valuations); (R-AUXFLAG) the "
+            "auxiliary-carry helper call agrees with the arithmetic helper call of the same function (kind, operands, carry-in); (R-SIZETAB) "
+            "size-indexed register tables select registers of the indexing size. Does NOT decide "
             "ALU results, flag formulas, sub-register write rules, memory effects: anything needing a CPU or a reference interpreter."
         ),
-        rules=[(R_c06.r_isatab, Q), (R_c06.r_pc, Q), (R_c06.r_signed, Q), (R_c06.r_raw, Q), (R_c06.r_store, Q), (R_c06.r_cctab, Q)],
+        rules=[(R_c06.r_isatab, Q), (R_c06.r_pc, Q), (R_c06.r_signed, Q), (R_c06.r_raw, Q), (R_c06.r_store, Q), (R_c06.r_cctab, Q), (R_c06.r_auxflag, Q), (R_c06.r_sizetab, Q)],
         level_text="partial: table = reference comparison over all 106 shipped RISC-V base specs and 32 condition-code rows, typestate counting of pc stores over the CFG of 74 semantics functions, hazard (read-after-write) scan over 68; the tests decode no RISC-V instruction at all",
         level_note="Trusted: ref/riscv_base.json and ref/x86_cc.json (written from the manuals); vstat.ispecmodel for bit positions; `//` in setup functions is crysp Bits concatenation LSB-first. A base instruction with no shipped spec is listed in the evidence, not alarmed.",
         technique="table = vendored reference comparison, typestate (store counting) on CFG, def-use hazard scan, exhaustive truth-table evaluation of a dict literal",
@@ -287,9 +294,10 @@ PROPS = {
             "a value whose reaching-definition closure contains the loop's own value and the other map's read for that location (or "
             "top); the second loop skips only on the membership test of the merged map; vec-based pointers are expanded with "
             "their segment and displacement; vec.simplify drops an alternative only as a duplicate or by returning an undefined/"
-            "top value. Does NOT decide membership of evaluated results for all states (needs values)."
+            "top value; (R-ABSORB) in vec.simplify an undefined alternative is returned itself and can never reach the statements that "
+            "rebuild the list of alternatives. Does NOT decide membership of evaluated results for all states (needs values)."
         ),
-        rules=[(R_cc.r_merge, Q)],
+        rules=[(R_cc.r_merge, Q), (R_own.r_vecabsorb, Q)],
         level_text="partial: path enumeration of the four transfer loops and reaching-definition closure of the stored value; the single merge test joins two register-only maps",
         level_note="Trusted: vstat/rules/xfer.py (sink / dedup-test recognition), vstat.cfg reaching definitions; value-level clauses (which alternatives evaluate to what) are out of reach.",
         technique="path enumeration of transfer loops + reaching-definitions (def-use) closure",
@@ -297,3 +305,17 @@ PROPS = {
         assumptions=[],
     ),
 }
+
+# ---------------------------------------------------------------------------------------------------------------------------
+# R-BOUNDARY: the reviewed table of boundary comparisons (ref/boundaries.json) contributes rows to these properties
+from .rules import boundary as R_bd
+
+for _pid in sorted({p for r in R_bd.load_table() for p in r["properties"]}):
+    if _pid in PROPS:
+        PROPS[_pid]["rules"].append((R_bd.r_boundary(_pid), Q))
+        PROPS[_pid]["explanation"] += (
+            " (R-BOUNDARY) the reviewed boundary comparisons of this property (ref/boundaries.json: function, expected comparison, "
+            "reason) are still made, compared as integer partitions after linear normalisation -- decides where the half-open ranges "
+            "end, not the behaviour on either side."
+        )
+        PROPS[_pid]["trusted_base"] = list(PROPS[_pid]["trusted_base"]) + ["ref/boundaries.json (rows confirmed by reading, one reason each)"]
